@@ -25,10 +25,10 @@ def run(ctx):
     rng = ctx.rng
     stats = {"impl_runs": 0, "binaries": 0, "scores": 0, "load_variants": 0}
     problems = []
-    nmodels = ctx.pick(12, 400)
+    nmodels = 1 if ctx.replay_model else ctx.pick(12, 400)
     nontrivial = 0
     for mi in range(nmodels):
-        m = lc.gen_model(rng, max_order=ctx.pick(4, 6), max_vocab=ctx.pick(8, 30))
+        m = ctx.replay_model or lc.gen_model(rng, max_order=ctx.pick(4, 6), max_vocab=ctx.pick(8, 30))
         sess = lc.Session(ctx, m, "m%d" % mi)
         qs = lc.gen_queries(rng, m, ctx.pick(25, 100))
         base = {"arpa": m.arpa_bytes().decode("latin-1"), "vocab": m.vocab_bytes().decode("latin-1"), "queries": qs[:40]}
@@ -132,3 +132,8 @@ def run(ctx):
         ctx.report(sig, what, rq, True)
     if not problems:
         ctx.report_proof(pres)
+
+
+def replay(ctx, obj):
+    import sys
+    return lc.lm_replay(sys.modules[__name__], ctx, obj)
